@@ -109,7 +109,9 @@ def pair_case(draw):
         q = list(p)
     else:
         q = draw(point)
-    return {"p": p, "q": q, "mode": mode}
+    # the coordinates are handed over as float64 (default), or in a narrower floating-point
+    # type / as nested lists: the position is then the value that type holds
+    return {"p": p, "q": q, "mode": mode, "dtype": draw(st.sampled_from(["f8", "f8", "f8", "f4", "f2", "list"]))}
 
 
 @st.composite
@@ -132,7 +134,7 @@ def mean_case(draw):
     weights = None
     if draw(st.booleans()):
         weights = draw(st.lists(_f(0.01, 10.0), min_size=n, max_size=n))
-    return {"points": pts, "weights": weights, "centre": c, "spread": spread}
+    return {"points": pts, "weights": weights, "centre": c, "spread": spread, "dtype": draw(st.sampled_from(["f8", "f8", "f8", "f4", "f2", "list"]))}
 
 
 # --------------------------------------------------------------------------
@@ -150,6 +152,20 @@ def ref_sep(m, a, b):
     return m.atan2(m.sqrt(cx * cx + cy * cy + cz * cz), a[0] * b[0] + a[1] * b[1] + a[2] * b[2])
 
 
+def as_input(points, dtype):
+    """(object handed to AngularCoordinates, float64 values it represents); narrow types are
+    only used when the rounded values are still valid sky coordinates"""
+    arr = np.array(points, dtype=float)
+    if dtype == "list":
+        return arr.tolist(), arr
+    if dtype in ("f4", "f2"):
+        narrow = arr.astype(dtype)
+        back = narrow.astype(float)
+        if np.all(np.isfinite(back)) and np.all((back[:, 0] >= 0) & (back[:, 0] < TWO_PI) & (np.abs(back[:, 1]) <= HALF_PI)):
+            return narrow, back
+    return arr, arr
+
+
 def near_special(ra, dec):
     return abs(abs(dec) - HALF_PI) < 1e-6 or ra < 1e-6 or TWO_PI - ra < 1e-6
 
@@ -159,14 +175,16 @@ def run_pair(case):
     from yaw.coordinates import AngularCoordinates
 
     m = mp()
-    p, q = case["p"], case["q"]
-    a = AngularCoordinates(np.array([p]))
-    b = AngularCoordinates(np.array([q]))
+    in_p, val_p = as_input([case["p"]], case.get("dtype", "f8"))
+    in_q, val_q = as_input([case["q"]], case.get("dtype", "f8"))
+    p, q = [float(x) for x in val_p[0]], [float(x) for x in val_q[0]]
+    a = AngularCoordinates(in_p)
+    b = AngularCoordinates(in_q)
     ra_ref, rb_ref = ref_xyz(m, *p), ref_xyz(m, *q)
     theta = ref_sep(m, ra_ref, rb_ref)
     th = float(theta)
     nontrivial = near_special(*p) or near_special(*q) or th < 1e-8 or math.pi - th < 1e-6
-    ck = Checker(nontrivial, classes=[f"mode:{case['mode']}"])
+    ck = Checker(nontrivial, classes=[f"mode:{case['mode']}", f"input:{getattr(in_p, 'dtype', 'list')}"])
     if th < 1e-8:
         ck.cls("tiny-separation")
     if math.pi - th < 1e-6:
@@ -270,9 +288,9 @@ def run_mean(case):
     from yaw.coordinates import AngularCoordinates
 
     m = mp()
-    pts = np.array(case["points"], dtype=float)
+    in_pts, pts = as_input(case["points"], case.get("dtype", "f8"))
     w = None if case["weights"] is None else np.array(case["weights"], dtype=float)
-    ck = Checker(near_special(*case["centre"]), classes=[f"spread:{case['spread']}", "weighted" if w is not None else "unweighted"])
+    ck = Checker(near_special(*case["centre"]), classes=[f"spread:{case['spread']}", "weighted" if w is not None else "unweighted", f"input:{getattr(in_pts, 'dtype', 'list')}"])
     ws = [m.mpf(1)] * len(pts) if w is None else [m.mpf(float(x)) for x in w]
     sx = sy = sz = m.mpf(0)
     for (ra, dec), wi in zip(pts, ws):
@@ -285,7 +303,7 @@ def run_mean(case):
         from vlib.runner import Result
 
         return Result.discard("degenerate-mean")
-    ok, mean = ck.call(lambda: AngularCoordinates(pts).mean(w), "mean")
+    ok, mean = ck.call(lambda: AngularCoordinates(in_pts).mean(w), "mean")
     if ok:
         ra2, dec2 = float(mean.ra[0]), float(mean.dec[0])
         ck.expect(len(mean) == 1, "mean:shape")
